@@ -11,6 +11,7 @@ accumulates into the same cell.  Decides definedness, shape and bounds - nothing
 import ast
 import itertools
 import operator as o
+from fractions import Fraction
 from .model import norm, AnalysisError
 
 
@@ -383,6 +384,8 @@ class SK(object):
                 a = a.val
             if isinstance(b, Tok) and b.kind == 'PH0' and isinstance(b.val, (int, float)):
                 b = b.val
+            if op is o.truediv and isinstance(a, (int, Fraction)) and isinstance(b, (int, Fraction)) and not isinstance(a, bool) and not isinstance(b, bool) and b != 0:
+                return Fraction(a) / Fraction(b)
         if isinstance(a, Ord) and isinstance(b, Ord) and op is o.sub:
             return Gap(a.rank - b.rank)
         if isinstance(a, Gap) and isinstance(b, (int, float)) and not isinstance(b, bool) and op in (o.truediv, o.mul) and b != 0:
@@ -396,7 +399,7 @@ class SK(object):
         if isinstance(a, Gap) and isinstance(b, Gap) and op in (o.add, o.sub):
             return Gap(op(a.mag, b.mag))
         if isinstance(a, Sym) or isinstance(b, Sym):
-            num = lambda x: isinstance(x, (int, float)) and not isinstance(x, bool)
+            num = lambda x: isinstance(x, (int, float, Fraction)) and not isinstance(x, bool)
             lit = lambda x: x.val if isinstance(x, Tok) and x.kind == 'PH0' and num(x.val) else x      # a literal initial fill is its number
             a, b = lit(a), lit(b)
             from .poly import Poly as _P
@@ -883,6 +886,8 @@ def _str(sk, n, *a):
 
 
 def _float(sk, n, x):
+    if sk.exact and isinstance(x, (int, Fraction)) and not isinstance(x, bool):
+        return Fraction(x)          # exact mode: the float of an integer takes part in rational arithmetic exactly
     if isinstance(x, (Ord, Gap)):
         return x
     if isinstance(x, Tok):
